@@ -11,12 +11,13 @@ def sh(cmd, cwd=None, env=None, timeout=1800):
 
 def main():
     src, sid = os.path.abspath(sys.argv[1]), sys.argv[2]
-    wt = f"/tmp/mut/confirm_{sid}"
+    MUT = os.environ.get("MUT_ROOT", "/tmp/mut")
+    wt = f"{MUT}/confirm_{sid}"
     sh(f"git -C /repo worktree remove --force {wt}")
     rc, out = sh(f"git -C /repo worktree add -q --detach {wt} HEAD")
     if rc != 0:
         print("cannot create worktree", out); sys.exit(2)
-    env = dict(os.environ, PYTHONPATH=f"/tmp/mut:{wt}")
+    env = dict(os.environ, PYTHONPATH=f"{MUT}:{wt}")
     res = {"id": sid}
     try:
         rc, out = sh(f"/venv/bin/python {src}/demo.py", cwd=wt, env=env)
